@@ -32,7 +32,7 @@ ASSUMPTIONS = [
     'non-strict mode: acceptance, linking and "no foreign exception type" are judged; attribution only when nothing is missing or extra',
 ]
 SHARDS = {'quick': 4, 'thorough': 16}
-TIMEOUT = {'quick': 400, 'thorough': 2400}
+TIMEOUT = {'quick': 900, 'thorough': 3600}
 ANCHORS = [
     ('pjrpc/client/client.py', 'BaseAbstractClient._relate'), ('pjrpc/client/client.py', 'BaseBatch._relate'),
     ('pjrpc/common/v20.py', 'BatchResponse.from_json'), ('pjrpc/common/v20.py', 'BatchResponse.result'),
